@@ -107,8 +107,11 @@ type InputSpec struct {
 	Compiles []CompileStep `json:"compiles"`
 	Debug    bool          `json:"debug"`
 	LexAlone bool          `json:"lex_alone,omitempty"`
-	LateOp   *OpSpec       `json:"late_op,omitempty"` // registered on the shared builder just before this input's Build
-	LateName string        `json:"late_name,omitempty"`
+	// Reconf: successive WithPrettyPrint calls (each a partial option list) on ONE compiler, compiling after
+	// each; options: 0 tabs, 1..9 n-1 spaces, 10 semi on, 11 semi off; -1 in first place = WithSourceMap first
+	Reconf   [][]int `json:"reconf,omitempty"`
+	LateOp   *OpSpec `json:"late_op,omitempty"` // registered on the shared builder just before this input's Build
+	LateName string  `json:"late_name,omitempty"`
 }
 
 type Recompile struct {
@@ -245,6 +248,18 @@ func GenJob(seed uint64) *JobSpec {
 		}
 		in.Debug = ch.Bool(2, 3)
 		in.LexAlone = ch.Bool(1, 3)
+		if ch.Bool(1, 3) {
+			for i, n := 0, 2+ch.Choose(3); i < n; i++ {
+				var opts []int
+				for o, m := 0, ch.Choose(3); o < m; o++ {
+					opts = append(opts, ch.Choose(12))
+				}
+				if i == 0 && ch.Bool(1, 3) {
+					opts = append([]int{-1}, opts...)
+				}
+				in.Reconf = append(in.Reconf, opts)
+			}
+		}
 		if k > 0 && !plain && ch.Bool(1, 3) {
 			// a registration that arrives after earlier parsers were built
 			if ch.Bool(1, 2) && len(words) < len(wordPool) {
@@ -922,6 +937,51 @@ func (j *jobRun) part(s *sink, k int, p *parser.Parser) *ast.Program {
 			}
 		}
 		j.compile(s, fmt.Sprintf("in%d/compile%02d/%s", k, i, cfg), prog, cfg, cc)
+	}
+	if len(in.Reconf) > 0 {
+		// one compiler, reconfigured between compilations: each result must be what a fresh compiler
+		// given only the latest options produces
+		mk := func(cc *compiler.Compiler, opts []int) *compiler.Compiler {
+			var po []compiler.PrettyPrintOption
+			for _, o := range opts {
+				switch {
+				case o < 0:
+					cc = cc.WithSourceMap()
+				case o == 0:
+					po = append(po, compiler.WithTabs())
+				case o <= 9:
+					po = append(po, compiler.WithSpaces(o-1))
+				case o == 10:
+					po = append(po, compiler.WithSemi(true))
+				default:
+					po = append(po, compiler.WithSemi(false))
+				}
+			}
+			return cc.WithPrettyPrint(po...)
+		}
+		var cc *compiler.Compiler
+		withMap := false
+		pan := guard(func() { cc = compiler.New() })
+		for i, opts := range in.Reconf {
+			if pan != "" {
+				break
+			}
+			env.Yield(sStep)
+			if len(opts) > 0 && opts[0] < 0 {
+				withMap = true
+			}
+			var got, want compiler.CompileResult
+			p1 := guard(func() { cc = mk(cc, opts); got = cc.Compile(prog) })
+			s.put(fmt.Sprintf("in%d/reconf%02d", k, i), renderResult(p1, got))
+			fresh := opts
+			if withMap && (len(opts) == 0 || opts[0] >= 0) {
+				fresh = append([]int{-1}, opts...)
+			}
+			p2 := guard(func() { want = mk(compiler.New(), fresh).Compile(prog) })
+			if p1 == "" && p2 == "" && renderResult("", got) != renderResult("", want) {
+				s.inv("reconfigured-compiler-differs-from-fresh-compiler-with-the-same-options", fmt.Sprintf("input %d, reconfiguration %d %v: %s vs fresh %s", k, i, opts, clipAroundJ(renderResult("", got), renderResult("", want)), clipAroundJ(renderResult("", want), renderResult("", got))))
+			}
+		}
 	}
 	if in.Debug {
 		env.Yield(sStep)
